@@ -34,6 +34,10 @@ def configs(tier, seed):
                     if n == 3:
                         for ia in ("start", "end"):
                             out.append(dict(h="cohorts", op=kind + ia, key=f"cohorts/{kind}/grid={grid}/n={n}/extra={ek}/inflow_at={ia}", kind=kind, grid=grid, n=n, extra=extra, inflow_at=ia))
+    if tier == "quick":
+        for kind in ("sdsm_lapack", "sdsm_manual"):
+            out.append(dict(h="cohorts", op=kind + "2d", key=f"cohorts/{kind}/grid=uneven/n=3/extra=r2xp2", kind=kind, grid="uneven", n=3, extra={"r": 2, "p": 2}))
+            out.append(dict(h="cohorts", op=kind + "2d3", key=f"cohorts/{kind}/grid=const/n=3/extra=r2xp3", kind=kind, grid="const", n=3, extra={"r": 2, "p": 3}))
     # the shipped lifetime classes with parameters that vary over time (per cohort) and over labels
     for kind in KINDS:
         for lt in ("FixedLifetime", "NormalLifetime"):
